@@ -368,8 +368,9 @@ def _pred_symbolic_norm(case, v, **_):
 
 def _pred_symbolic_coef_left(case, v, **_):
     """register(symbolic=True): a coefficient (RationalPolynomial) as LEFT operand of * or + with a multivector on the right is
-    swallowed by RationalPolynomial.__mul__/__add__ (wraps the multivector as a coefficient) -> AttributeError/TypeError."""
-    return (v.op == "symbolic" and v.data.get("exc") in ("AttributeError", "TypeError", "SympifyError")
+    swallowed by RationalPolynomial.__mul__/__add__ (wraps the multivector as a coefficient) -> AttributeError/TypeError, or
+    KeyError when the swallowed "polynomial" is then raised to the power 0 (power_supply has no chain for 0)."""
+    return (v.op == "symbolic" and v.data.get("exc") in ("AttributeError", "TypeError", "SympifyError", "KeyError")
             and any(n[0] == "coef" and n[3] in ("c*t", "c+t") for n in _nodes(case["tree"])))
 
 
